@@ -304,8 +304,14 @@ static void part_b(Tape &t)
 			case 1: case 2: break;                                                  // plain resumption
 			case 3: for (uint16_t x : RSA_SUITES) if (x != saved[ci].r.suite) csu.push_back(x); what = "resume, client dropped the suite"; break;
 			case 4: for (uint16_t x : RSA_SUITES) if (x != saved[ci].r.suite) ssu.push_back(x); what = "resume, server dropped the suite"; break;
-			case 5: if (saved[ci].r.version > 0x0301) { cvmax = saved[ci].r.version - 1; what = "resume, client max version lowered"; } break;
-			case 6: if (saved[ci].r.version > 0x0301) { svmax = saved[ci].r.version - 1; what = "resume, server max version lowered"; } break;
+			case 5:
+				if ((ab & 0x40) && saved[ci].r.version < 0x0303) { cvmin = saved[ci].r.version + 1; what = "resume, client min version raised"; }
+				else if (saved[ci].r.version > 0x0301) { cvmax = saved[ci].r.version - 1; what = "resume, client max version lowered"; }
+				break;
+			case 6:
+				if ((ab & 0x40) && saved[ci].r.version < 0x0303) { svmin = saved[ci].r.version + 1; what = "resume, server min version raised"; }
+				else if (saved[ci].r.version > 0x0301) { svmax = saved[ci].r.version - 1; what = "resume, server max version lowered"; }
+				break;
 			case 7: br_ssl_session_cache_lru_forget(&lru, saved[ci].r.sid.data()); model.forget(saved[ci].r.sid); what = "resume after forget"; break;
 			case 8: srv = &s2; empty_model.cap = 3; mdl = &empty_model; what = "resume against another server (empty cache)"; break;
 			case 9: what = "resume with altered id"; break;
@@ -339,7 +345,9 @@ static void part_b(Tape &t)
 		unsigned v = std::min(cvmax, svmax);
 		bool have = false;
 		MEntry me;
-		if (resume && !id_altered) have = mdl->load(saved[ci].r.sid, me);
+		// a client does not offer a session whose version it no longer allows (it would have to refuse the answer): no lookup then
+		bool offered = resume && saved[ci].r.version >= cvmin && saved[ci].r.version <= cvmax;
+		if (offered && !id_altered) have = mdl->load(saved[ci].r.sid, me);
 		bool suite_ok = resume && std::find(csu.begin(), csu.end(), saved[ci].r.suite) != csu.end() && std::find(ssu.begin(), ssu.end(), saved[ci].r.suite) != ssu.end();
 		bool version_ok = resume && saved[ci].r.version >= std::max(cvmin, svmin) && saved[ci].r.version <= v;
 		bool may_abbreviate = have && suite_ok && version_ok;
